@@ -45,6 +45,14 @@ fn peer_id(i: usize, r: &mut Rng) -> [u8; 20] {
 
 /// Runs one lookup; `items[i]` is delivered i-th. Returns the API's answer.
 pub fn run_lookup(r: &mut Rng, items: &[(i64, Vec<u8>)], use_async: bool) -> Result<Option<(i64, Vec<u8>)>, String> {
+    run_lookup_j(r, items, use_async, false).map(|(a, _)| a)
+}
+
+/// `join`: the last holder is slow: after all the others have answered, a second caller asks for the same item (it joins
+/// the lookup that is still running and is handed what has arrived so far), then the last holder answers. Returns what
+/// the first caller and (with `join`) the second caller got.
+#[allow(clippy::type_complexity)]
+pub fn run_lookup_j(r: &mut Rng, items: &[(i64, Vec<u8>)], use_async: bool, join: bool) -> Result<(Option<(i64, Vec<u8>)>, Option<Option<(i64, Vec<u8>)>>), String> {
     simclock::set_ms(1000);
     // the threaded Dht waits in its socket reads
     simclock::NONBLOCKING_SOCKETS.store(false, std::sync::atomic::Ordering::SeqCst);
@@ -94,10 +102,53 @@ pub fn run_lookup(r: &mut Rng, items: &[(i64, Vec<u8>)], use_async: bool) -> Res
     let mut pending: Vec<(usize, std::net::SocketAddrV4, u32)> = Vec::new();
     let mut answered = false;
     let mut result = None;
+    let (tx2, rx2) = mpsc::channel();
+    let mut held_back: Option<(usize, std::net::SocketAddrV4, u32, usize)> = None;
+    let mut join_stage = 0u32; // 0 = not yet; k > 0 = rounds since the others were answered
+    let mut api2 = None;
+    let mut result2: Option<Option<(i64, Vec<u8>)>> = None;
     for _round in 0..20000 {
-        if let Ok(res) = rx.try_recv() {
-            result = Some(res);
+        if result.is_none() {
+            if let Ok(res) = rx.try_recv() {
+                result = Some(res);
+            }
+        }
+        if api2.is_some() && result2.is_none() {
+            if let Ok(res) = rx2.try_recv() {
+                result2 = Some(res);
+            }
+        }
+        if result.is_some() && (api2.is_none() || result2.is_some()) && (!join || n < 2 || layered || api2.is_some()) {
             break;
+        }
+        if join_stage > 0 {
+            join_stage += 1;
+            if join_stage == 150 {
+                // the second caller
+                let salt3 = salt.clone();
+                let dht3 = dht.clone();
+                let tx2 = tx2.clone();
+                api2 = Some(std::thread::spawn(move || {
+                    let res = if use_async {
+                        block_on(dht3.as_async().get_mutable_most_recent(&pk, salt3.as_deref()))
+                    } else {
+                        dht3.get_mutable_most_recent(&pk, salt3.as_deref())
+                    };
+                    let _ = tx2.send(res.map(|it| (it.seq(), it.value().to_vec())));
+                }));
+            }
+            if join_stage == 300 {
+                if let Some((p, from, tid, i)) = held_back.take() {
+                    let responder_id = Id::from(peers[p].id);
+                    let mt = if i < signed.len() {
+                        let it = &signed[i];
+                        MessageType::Response(ResponseSpecific::GetMutable(GetMutableResponseArguments { responder_id, token: vec![1, 2, 3, 4].into(), nodes: None, v: it.value().into(), k: *it.key(), seq: it.seq(), sig: *it.signature() }))
+                    } else {
+                        MessageType::Response(ResponseSpecific::NoValues(NoValuesResponseArguments { responder_id, token: vec![1, 2, 3, 4].into(), nodes: None }))
+                    };
+                    peers[p].send(from, tid, mt, false, None);
+                }
+            }
         }
         for inc in poll(&peers) {
             let req = match as_request(&inc.msg) {
@@ -138,6 +189,11 @@ pub fn run_lookup(r: &mut Rng, items: &[(i64, Vec<u8>)], use_async: bool) -> Res
         if !answered && pending.len() == n {
             // deliver item i from the i-th responder that was asked, in script order
             for (i, (p, from, tid)) in pending.iter().enumerate() {
+                if join && n >= 2 && i + 1 == n {
+                    held_back = Some((*p, *from, *tid, i));
+                    join_stage = 1;
+                    continue;
+                }
                 let responder_id = Id::from(peers[*p].id);
                 let mt = if i < signed.len() {
                     let it = &signed[i];
@@ -163,10 +219,33 @@ pub fn run_lookup(r: &mut Rng, items: &[(i64, Vec<u8>)], use_async: bool) -> Res
     if result.is_some() {
         let _ = api.join();
     }
+    if let (Some(h), true) = (api2, result2.is_some()) {
+        let _ = h.join();
+    }
     if result.is_none() && std::env::var("MLV_DEBUG").is_ok() {
         eprintln!("lookup did not finish ({} of {} peers asked)", pending.len(), n);
     }
-    result.ok_or_else(|| format!("lookup did not finish ({} of {} peers asked)", pending.len(), n))
+    let first = result.ok_or_else(|| format!("lookup did not finish ({} of {} peers asked)", pending.len(), n))?;
+    Ok((first, if join && n >= 2 && !layered { Some(result2.ok_or_else(|| "the second caller got no outcome".to_string())?) } else { None }))
+}
+
+/// two cases: what the first and what the joining caller got; both were handed every item
+pub fn case_join(r: &mut Rng, items: &[(i64, Vec<u8>)], use_async: bool) -> Vec<String> {
+    let res = run_lookup_j(r, items, use_async, true);
+    let fmt = |o: &Option<(i64, Vec<u8>)>| match o {
+        Some(it) => format!("(Some {})", item_coq(it)),
+        None => "None".to_string(),
+    };
+    let bad = "(Some ((-77)%Z, [255;255;255]))".to_string();
+    let (a, b) = match &res {
+        Ok((a, Some(b))) => (fmt(a), fmt(b)),
+        Ok((a, None)) => (fmt(a), bad.clone()),
+        Err(_) => (bad.clone(), bad),
+    };
+    vec![
+        format!("KMostRecent {} {} {}", boolean(use_async), list(items, item_coq), a),
+        format!("KMostRecent {} {} {}", boolean(use_async), list(items, item_coq), b),
+    ]
 }
 
 fn item_coq(it: &(i64, Vec<u8>)) -> String {
@@ -245,6 +324,21 @@ pub fn generate(seed: u64, scale: usize) -> Cases {
             let items: Vec<(i64, Vec<u8>)> = perm.iter().map(|i| p[*i].clone()).collect();
             let a = r.chance(1, 2);
             cases.push(&format!("pattern{}", pi), case(&mut r, &items, a));
+        }
+    }
+    // a second caller joins the running lookup: it is handed what arrived before it asked, and the rest as it arrives
+    let joins: Vec<Vec<(i64, Vec<u8>)>> = vec![
+        vec![(2, b"b".to_vec()), (1, b"a".to_vec())],
+        vec![(1, b"a".to_vec()), (2, b"b".to_vec())],
+        vec![(0, b"zero".to_vec()), (-1, b"older".to_vec())],
+        vec![(-2, b"x".to_vec()), (-7, b"y".to_vec()), (-9, b"z".to_vec())],
+        vec![(0, b"b".to_vec()), (0, b"a".to_vec()), (-1, b"c".to_vec())],
+        vec![(5, b"n".to_vec()), (5, b"m".to_vec()), (4, b"z".to_vec()), (3, b"z".to_vec())],
+        vec![(i64::MIN + 1, b"p".to_vec()), (i64::MIN, b"q".to_vec())],
+    ];
+    for (k, p) in joins.iter().enumerate() {
+        for c in case_join(&mut r, p, k % 2 == 0) {
+            cases.push("second_caller_joins", c);
         }
     }
     // more than 20 holders (two layers of nodes): the newest item, or the greatest value of a tie, among the last delivered
